@@ -600,4 +600,115 @@ func typedAPI(repM, repU *Report, wM, wU *CaseWriter, r *rand.Rand, thorough boo
 		n = 1500
 	}
 	apiTuples(repM, repU, r, n)
+	apiFuncTargets(repM, repU, r)
+}
+
+// ---- a func WITH parameters as an unmarshal target is called with the tuple's items ----
+func apiFuncTargets(repM, repU *Report, r *rand.Rand) {
+	for i := 0; i < 20; i++ {
+		a, s, bs, l := int(randI64(r)), string(payload(r, r.Intn(5))), payload(r, r.Intn(4)), []int{r.Intn(9), r.Intn(9)}
+		ts, err := marshalTokens(sb.Tuple{a, s, bs, l}, nil)
+		if err != nil {
+			continue
+		}
+		desc := fmt.Sprintf("tuple stream into a func(int, string, []byte, []int) target: [%s]", truncate(descTokens(ts), 200))
+		calls := 0
+		var ga int
+		var gs string
+		var gb []byte
+		var gl []int
+		fn := func(x int, y string, z []byte, w []int) { calls++; ga, gs, gb, gl = x, y, z, w }
+		e := guard(func() error { return copyBudget(tokensFrom(ts), sb.Unmarshal(fn)) })
+		repU.Evaluations++
+		repU.count("api:func-call-target")
+		if e != nil || calls != 1 || ga != a || gs != s || !bytes.Equal(gb, bs) || !reflect.DeepEqual(gl, l) {
+			repU.violate("C01", "func-call-target", fmt.Sprintf("the func was called %d times with (%v,%q,%x,%v), error %v; expected one call with (%v,%q,%x,%v)", calls, ga, gs, gb, gl, e, a, s, bs, l), desc)
+		}
+		// an error returned by the func is the error of the run
+		fe := func(x int, y string, z []byte, w []int) error { return errInjected }
+		e = guard(func() error { return copyBudget(tokensFrom(ts), sb.Unmarshal(fe)) })
+		if classOf(e) != "EFault" || !isUnmarshalError(e) {
+			repU.violate("C15", "fault-cause-lost", fmt.Sprintf("a func target returning an error: the run reports %v", e), desc)
+			repU.violate("C05", "func-call-target", fmt.Sprintf("a func target returning an error: the run reports %v", e), desc)
+		}
+		// arity and type mismatches are rejected, and the func is not called
+		calls = 0
+		f3 := func(x int, y string, z []byte) { calls++ }
+		e = guard(func() error { return copyBudget(tokensFrom(ts), sb.Unmarshal(f3)) })
+		f5 := func(x int, y string, z []byte, w []int, v int) { calls++ }
+		e5 := guard(func() error { return copyBudget(tokensFrom(ts), sb.Unmarshal(f5)) })
+		fw := func(x int, y int, z []byte, w []int) { calls++ }
+		ew := guard(func() error { return copyBudget(tokensFrom(ts), sb.Unmarshal(fw)) })
+		repU.Evaluations += 4
+		if e == nil || e5 == nil || ew == nil || calls != 0 || classOf(e5) != "ETooFew" || classOf(ew) != fmt.Sprintf("(EMismatch %d %d)", sb.KindString, reflect.Int) {
+			repU.violate("C05", "func-call-target", fmt.Sprintf("4 items into 3 parameters: %s; into 5 parameters: %s; a string into an int parameter: %s; calls=%d", classOf(e), classOf(e5), classOf(ew), calls), desc)
+		}
+		// variadic: the fixed parameters are typed, the rest arrive as they are
+		var rest []any
+		fv := func(x int, more ...any) { calls++; ga = x; rest = more }
+		calls = 0
+		e = guard(func() error { return copyBudget(tokensFrom(ts), sb.Unmarshal(fv)) })
+		if e != nil || calls != 1 || ga != a || len(rest) != 3 || rest[0] != any(s) {
+			repU.violate("C01", "func-call-target", fmt.Sprintf("a variadic func target: error %v, calls=%d, x=%v rest=%v", e, calls, ga, rest), desc)
+		}
+	}
+	// a func with parameters is not a tuple: marshalling it is a BadTupleType error
+	_, err := marshalTokens(func(int) int { return 0 }, nil)
+	repM.Evaluations++
+	if classOf(err) != "EBadTuple" {
+		repM.violate("C08", "func-with-parameters", fmt.Sprintf("Marshal(func(int) int) = %v, expected a BadTupleType error", err), "func(int) int")
+		repM.violate("C18", "func-with-parameters", fmt.Sprintf("Marshal(func(int) int) = %v, expected a BadTupleType error", err), "func(int) int")
+	}
+}
+
+// ---- a stream that fails part-way through Compare: the fault is the result, on either side ----
+// a stream yielding ts[:at] and then failing
+func faultyAt(ts []sb.Token, at int) sb.Stream {
+	i := 0
+	var p sb.Proc
+	p = func(t *sb.Token) (sb.Proc, error) {
+		if i == at {
+			return nil, errInjected
+		}
+		if i >= len(ts) {
+			return nil, nil
+		}
+		*t = ts[i]
+		i++
+		return p, nil
+	}
+	return &p
+}
+
+func apiCompareFaults(rep *Report, r *rand.Rand, n int) {
+	for i := 0; i < n; i++ {
+		a := randTokens(r, 6)
+		if hasNaNPayload(a) {
+			continue // a float token with a NaN payload is not equal to itself (the domain edge of C06)
+		}
+		b := append([]sb.Token{}, a...)
+		if r.Intn(2) == 0 && len(b) > 0 {
+			b = append(b, randToken(r))
+		}
+		at := r.Intn(len(a) + 1)
+		desc := fmt.Sprintf("Compare with a stream failing at token %d: a=[%s] b=[%s]", at, truncate(descTokens(a), 200), truncate(descTokens(b), 200))
+		for side := 0; side < 2; side++ {
+			var s1, s2 sb.Stream = tokensFrom(a), tokensFrom(b)
+			if side == 0 {
+				s1 = faultyAt(a, at)
+			} else {
+				s2 = faultyAt(a, at)
+				s1 = tokensFrom(b)
+			}
+			var res int
+			var err error
+			e := guard(func() error { res, err = sb.Compare(s1, s2); return nil })
+			rep.Evaluations++
+			rep.count("api:compare-fault")
+			// the common prefix a[:at] is equal on both sides, so the fault is reached before any difference
+			if e != nil || classOf(err) != "EFault" {
+				rep.violate("C15", "stream-fault-lost", fmt.Sprintf("Compare returned %d, %v (%v): the fault of the %s stream is not reported", res, err, e, []string{"first", "second"}[side]), desc)
+			}
+		}
+	}
 }
